@@ -86,6 +86,10 @@ type Config struct {
 	// transport controller is, so their directives reach the controller while
 	// its transport is not constructed yet.
 	EarlyLookups bool
+	// AnyPeer: the controller is built WITHOUT a configured peer id (it takes the
+	// identity of the peer found on the bus, as a transport config without a
+	// transport_peer_id does).
+	AnyPeer bool
 	// Contract: the fake link honours link.Link's documented contract "Close:
 	// the link should call the HandleLinkLost callback exactly once".
 	Contract bool
@@ -357,7 +361,11 @@ func New(cfg *Config) *Sys {
 		s.broken = err.Error()
 		return s
 	}
-	s.ctrl = transport_controller.NewController(le, b, controller.NewInfo("verif/tch/tpt", semver.MustParse("0.0.1"), "controller under test"), keys[0].ID, false,
+	cfgPeer := keys[0].ID
+	if cfg.AnyPeer {
+		cfgPeer = ""
+	}
+	s.ctrl = transport_controller.NewController(le, b, controller.NewInfo("verif/tch/tpt", semver.MustParse("0.0.1"), "controller under test"), cfgPeer, false,
 		func(ctx context.Context, le *logrus.Entry, pkey crypto.PrivKey, handler transport.TransportHandler) (transport.Transport, error) {
 			id, err := peer.IDFromPrivateKey(pkey)
 			if err != nil {
